@@ -45,8 +45,10 @@ pub fn weights(n: usize, with_extreme: bool) -> impl Strategy<Value = Vec<f64>> 
     let logu = prop::collection::vec(log_uniform(-6.0, 6.0), n).boxed();
     let wild = (prop::collection::vec(0.5f64..2.0, n), any::<u16>(), log_uniform(6.0, 12.0))
         .prop_map(move |(mut v, i, big)| {
-            let k = idx16(i, n);
-            v[k] *= big;
+            if n > 0 {
+                let k = idx16(i, n);
+                v[k] *= big;
+            }
             v
         })
         .boxed();
